@@ -15,7 +15,9 @@ Import ListNotations.
 (* Any table type, any lookup function of (table, request, picker state), any schedule of
    SetTable (nil included) / GetTable / Lookup actions of any number of writers and readers, any
    lookup in it: its result is [look] of the table that was in the cell when its reader called
-   GetTable last - never of anything stored later, never of a mixture. *)
+   GetTable last - never of anything stored later, never of a mixture.  The schedules include the
+   read-only users of route.GetTable() ([ARead]: admin API routes handler, Table.String / Dump,
+   logRoutes, the gRPC pool's and the tcp-dynamic listener's scans) anywhere. *)
 Theorem C02_lookup_single_snapshot :
   forall (T Q C R : Type) (look : T -> Q -> C -> R) t0 p1 p2 r q c rest,
   no_load T Q C r p2 = true ->
@@ -37,6 +39,21 @@ Theorem C02_schedule_decompose : forall (T Q C : Type) r (p : list (action T Q C
 Proof. exact schedule_decompose. Qed.
 Print Assumptions C02_schedule_decompose.
 
+(* the published table is immutable: the read-only users of route.GetTable() can be added to or
+   removed from any schedule without changing any lookup result, the table in the cell or any
+   reader's snapshot (the correspondence run replays such schedules on the real handlers and runs
+   them concurrently with lookups under the race detector) *)
+Theorem C02_readers_do_not_change_table : forall (T Q C R : Type) (look : T -> Q -> C -> R) s cell l,
+  run_cell T Q C R look cell l s = run_cell T Q C R look cell l (without_reads T Q C s)
+  /\ exec_cell T Q C R look cell l s = exec_cell T Q C R look cell l (without_reads T Q C s).
+Proof. exact readers_do_not_change_table. Qed.
+Print Assumptions C02_readers_do_not_change_table.
+
+Theorem C02_readers_do_not_change_current : forall (T Q C : Type) t0 (s : list (action T Q C)),
+  current T Q C t0 s = current T Q C t0 (without_reads T Q C s).
+Proof. exact readers_do_not_change_current. Qed.
+Print Assumptions C02_readers_do_not_change_current.
+
 Theorem C02_set_nil_ignored : forall (T : Type) (cell : T), set_table T cell None = cell.
 Proof. exact set_nil_ignored. Qed.
 Print Assumptions C02_set_nil_ignored.
@@ -49,8 +66,8 @@ Print Assumptions C02_nil_store_invisible.
 Theorem C02_cell_nonvacuous :
   let look := fun (t : N) (q : N) (_ : unit) => (t * 10 + q)%N in
   run_cell N N unit N look 1%N (no_locals N)
-    [ALoad 0; ASet (Some 2%N); ALookup 0 5%N tt; ALoad 1; ASet None; ASet (Some 3%N); ALookup 1 6%N tt;
-     ALookup 0 7%N tt; ALoad 0; ALookup 0 8%N tt]
+    [ALoad 0; ASet (Some 2%N); ARead 7 0%N; ALookup 0 5%N tt; ALoad 1; ASet None; ASet (Some 3%N); ALookup 1 6%N tt;
+     ARead 0 3%N; ALookup 0 7%N tt; ALoad 0; ALookup 0 8%N tt]
   = [(0, 5%N, tt, Some 15%N); (1, 6%N, tt, Some 26%N); (0, 7%N, tt, Some 17%N); (0, 8%N, tt, Some 38%N)].
 Proof. exact cell_nonvacuous. Qed.
 Print Assumptions C02_cell_nonvacuous.
@@ -304,6 +321,12 @@ Theorem C02_custom_carry_over_refuted :
       end).
 Proof. exact custom_carry_over_refuted. Qed.
 Print Assumptions C02_custom_carry_over_refuted.
+
+(* F-C02-10 (open): a poll body that is the JSON value null reaches NewTableCustom(nil), which
+   dereferences it: the polling goroutine panics (no recover), whatever table is active *)
+Theorem C02_custom_null_body_crashes : forall cbuild cell, custom_poll_body cbuild cell None = None.
+Proof. exact custom_null_body_crashes. Qed.
+Print Assumptions C02_custom_null_body_crashes.
 
 Theorem C02_custom_errors :
   custom_build canon_wit glob_wit (ring_faithful stable_order) [None] = Err e_invalid_cmd
